@@ -525,6 +525,35 @@ Proof.
   - apply bl_algo_abs_blind. apply abs_child_block_local.
 Qed.
 
+(* computed instance over XQ (Model/BlockAbsExample2.v): the 7-node scroll container of Model/BlockAbsExample.v against the same tree with the
+   absolute CONTAINER R (and its child) replaced by a bare absolute leaf 7 x 9; the fresh trees are asim; both evaluations succeed; root size
+   212 x 52 on both sides, content sizes 203 x 69 vs 203 x 51 (they DIFFER: content_size is what the statement leaves out); the stored boxes
+   of A, P, Q and F coincide (listed in r_check); the theorem's conclusion for this pair *)
+From TV Require Import Model.BlockRoot Model.BlockAbsExample Model.BlockAbsExample2.
+Example C06_bl_engine_real_example :
+  asim (BNode XQ) (BIn XQ) (ChildOut XQ) (BLayout XQ) bn_visible_absolute out_eq lay_eq (bl_fresh exr_tree) (bl_fresh exr_tree') /\
+  r_check = true /\
+  exists o t o' t', r_run exr_tree = Some (o, t) /\ r_run exr_tree' = Some (o', t') /\
+    asim (BNode XQ) (BIn XQ) (ChildOut XQ) (BLayout XQ) bn_visible_absolute out_eq lay_eq t t' /\ out_eq o o'.
+Proof.
+  assert (Hs : asim (BNode XQ) (BIn XQ) (ChildOut XQ) (BLayout XQ) bn_visible_absolute out_eq lay_eq (bl_fresh exr_tree) (bl_fresh exr_tree')).
+  { pose proof (asim_refl (BNode XQ) (BIn XQ) (ChildOut XQ) (BLayout XQ) bn_visible_absolute out_eq lay_eq out_eq_refl lay_eq_refl) as R.
+    pose proof (crel_refl (BIn XQ) (ChildOut XQ) out_eq out_eq_refl) as C.
+    apply asim_node; [apply C|apply lay_eq_refl|].
+    constructor; [apply R|]. constructor; [apply R|]. constructor; [apply R|]. constructor; [|constructor; [apply R|constructor]].
+    apply asim_abs; vm_compute; reflexivity. }
+  split; [exact Hs|].
+  split; [vm_compute; reflexivity|].
+  let v := eval vm_compute in (r_run exr_tree) in assert (E : r_run exr_tree = v) by (vm_compute; reflexivity).
+  let v := eval vm_compute in (r_run exr_tree') in assert (E' : r_run exr_tree' = v) by (vm_compute; reflexivity).
+  match type of E with _ = Some (?o, ?t) => match type of E' with _ = Some (?o', ?t') =>
+    exists o, t, o', t'; split; [exact E|]; split; [exact E'|];
+    destruct (C06_bl_engine_real_instance_partial XQ _ ex_fuel ex_fuel _ _ r_in o t o' t' Hs E E') as [Ht Ho];
+    split; [exact Ht|]; apply Ho; vm_compute; reflexivity
+  end end.
+Qed.
+
+
 (* C06_block_inflow_abs_blind / _delete_absolute, concrete over XQ: a container 212 wide with an in-flow child, an absolute
    child and another in-flow child; on the other side the absolute child has another style and another output and the first
    child reports another content size: xrel holds, the lists differ, the in-flow records and the height (52) coincide, the
@@ -804,6 +833,7 @@ Print Assumptions C06_flex_algorithm_abs_blind.
 Print Assumptions C06_blockflex_engine_instance.
 Print Assumptions C06_bl_algorithm_abs_blind.
 Print Assumptions C06_bl_engine_real_instance_partial.
+Print Assumptions C06_bl_engine_real_example.
 Print Assumptions C06_grid_algorithm_abs_blind_refuted.
 Print Assumptions C06_grid_algorithm_abs_blind_lines.
 Print Assumptions C06_grid_engine_instance.
